@@ -8,11 +8,13 @@ import SlipVerif.Driver.Util
    L    : n | t | i<dec> | o<nat> | f<tok> | d<tok> | s<hex> | y<hex> | m<tok> | ( L* ) | . L
    G    : n | T | F | i<bits>:<dec> | u<bits>:<dec> | f<tok> | d<tok> | s<hex> | m<tok> | [ G* ] | { (k<hex> G)* }
 
-   json ops <J> <op>*        op = G path | N path | A path | H path | W path | S path J | R path
+   json ops <J> <op>*        op = G path | N path | A path | H path | W path | S path J | M path J | R path
         reply: ok <result> ( | <result> )*     result = some J / none / <L> (N: toLisp of the node, nil when none) / list J* / T / F / ok J / err <class>
                (evaluation stops after the first err)
    json write c|i<n> <J>     reply: ok s<hex text>
    json parse s<hex text>    reply: ok <J> | err <class>
+   json parsemany s<hex>     reply: ok <J> ( | <J> )* | err <class>      (several documents in one text)
+   json scan T|F <J>         reply: ok <path> <J> ( | <path> <J> )*      (T = leaves only)
    json native <J>           reply: ok <faithful T/F> <L> | ok <J> / err <class>
    json oflisp <L>           reply: ok <J> | err <class>
    json simple <G>           reply: ok <gfaithful T/F> <L> | <G>
@@ -80,6 +82,13 @@ def encGM : List (String × G) → List String
 end
 
 def join (ws : List String) : String := " ".intercalate ws
+
+def encPath (p : Path) : List String :=
+  p.map (fun s => match s with
+    | .key k => "k" ++ hexString k
+    | .idx i => s!"x{i}"
+    | .wild => "*"
+    | .desc => "..") ++ [";"]
 
 /-! ### decoders (fuel = number of tokens + 1) -/
 
@@ -270,6 +279,13 @@ def runOps : Nat → J → List String → List String → Option (List String)
       match set v p doc with
       | .ok doc' => runOps fuel doc' r' (("ok " ++ join (encJ doc')) :: acc)
       | .error e => some ((showErr e) :: acc).reverse
+    else if op = "M" then do
+      let (v, r') ← decJ (r.length + 1) r
+      -- bag-modify with a function that returns v: every selected node becomes v (nothing is added)
+      if p.getLast? = some Step.desc then some (("err bad-last") :: acc).reverse
+      else
+        let doc' := modifyAt (fun _ => v) p doc
+        runOps fuel doc' r' (("ok " ++ join (encJ doc')) :: acc)
     else if op = "R" then
       match remove p doc with
       | .ok doc' => runOps fuel doc' r (("ok " ++ join (encJ doc')) :: acc)
@@ -310,6 +326,27 @@ def handle (entry : String) (args : List String) : String :=
         | none => "bad-request hex"
       else "bad-request text"
     | _ => "bad-request parse"
+  | "parsemany" =>
+    match args with
+    | [w] =>
+      if tag w = 's' then
+        match unhexString? (body w) with
+        | some text =>
+          match parseMany text with
+          | .ok js => "ok " ++ " | ".intercalate (js.map (fun j => join (encJ j)))
+          | .error e => showPErr e
+        | none => "bad-request hex"
+      else "bad-request text"
+    | _ => "bad-request parsemany"
+  | "scan" =>
+    match args with
+    | leaves :: rest =>
+      match decJ n rest with
+      | some (doc, []) =>
+        let items := if leaves = "T" then scanLeaves doc else scan doc
+        "ok " ++ " | ".intercalate (items.map (fun pv => join (encPath pv.1) ++ " " ++ join (encJ pv.2)))
+      | _ => "bad-request doc"
+    | _ => "bad-request scan"
   | "native" =>
     match decJ n args with
     | some (doc, []) =>
